@@ -67,6 +67,12 @@ CORPUS = [
     ("-", "fn nop() { } fn main() { let _t = spawn nop(); println(\"z\"); }"),
     ("-", "fn main() { let l = [1..3, 4..=5]; println(l, (1..3).start, [1, 2].len(), \"s\".len(), [[1], [2]][1][0]); let e = new { }; println(e); }"),
     ("-", "fn main() { println(9223372036854775807, -9223372036854775807 - 1, 1_000, - -3, !!true, ?1, ??2); }"),
+    # guard statements: a short-circuit operator whose right operand diverges completes normally when the left operand
+    # decides — what follows it is reachable (and must survive the optimizer)
+    ("-", "fn chk(ok: bool) -> int { ok || { return 0; }; println(\"checked\"); 1 } fn neg(n: int) -> str { n < 0 && { return \"negative\"; }; println(\"not negative\"); \"fine\" } "
+          "fn main() { println(chk(true)); println(chk(false)); println(neg(1), neg(-1)); let i = 0; loop { i += 1; i < 3 || { break; }; println(\"round\", i); } println(i); "
+          "for k in 0..4 { k % 2 == 0 && { continue; }; println(\"odd\", k); } }"),
+    ("-", "fn f(a: bool) -> int { let x = a && { return 7; }; println(\"x\", x); if a || { return 8; } { println(\"t\"); } 9 } fn main() { println(f(false)); println(f(true)); }"),
 ]
 # forms that are only accepted when findings of other areas are fixed: (capability, text)
 CORPUS_CAPS = [
